@@ -68,7 +68,7 @@ fn main() {
         ("corr", "C12") => trace::corr("C12", seed, n),
         ("corr", "C08") => corr_misc::corr_c08(seed, n),
         ("corr", "C15") => corr_misc::corr_c15(seed, n),
-        ("corr", "C19") => corr_misc::corr_c19(seed, n),
+        ("corr", "C19") => c19::corr(seed, n),
         ("corr", "C04") => c04::corr(seed, n),
         ("search", "C04") => c04::search(seed, n),
         ("corr", "C05") => c05::corr(seed, n),
